@@ -50,8 +50,30 @@ Plains == { Plain(a, b, c, d) : a \in {"0", "9223372036854775807", "-2147483649"
 Shapes == { Var("Unit", "unit", UnitV) } \cup { Var("Newtype", "newtype", I(x)) : x \in SmallI64 }
           \cup { Var("Tuple", "tuple", Seq_(<<I(x), S(s)>>)) : x \in {"0", "-2147483648"}, s \in SmallStr }
           \cup { Var("Struct", "struct", St(<< <<"x", I(x)>>, <<"y", F64(f)>> >>)) : x \in {"0", "18446744073709551615"}, f \in {<<63,248,0,0,0,0,0,0>>, <<128,0,0,0,0,0,0,0>>} }
+\* variants whose payload is itself a tuple-shaped, list-shaped, map-shaped or atom-shaped value: every way a payload can look once serialised,
+\* behind every variant shape (the serialised form of a variant is {Tag, Payload...}; what follows the tag must come back as the payload it was)
+ShapesFew == { Var("Unit", "unit", UnitV), Var("Newtype", "newtype", I("4294967296")), Var("Tuple", "tuple", Seq_(<<I("-2147483648"), S(<<104, 105>>)>>)),
+               Var("Struct", "struct", St(<< <<"x", I("18446744073709551615")>>, <<"y", F64(<<63,248,0,0,0,0,0,0>>)>> >>)) }
+PlainFew == { Plain("0", <<>>, NoneV, <<>>), Plain("-2147483649", <<195, 169>>, Some(I("255")), <<I("1"), I("-2147483648")>>) }
+Outers0 == { Var("Leaf", "unit", UnitV) }
+           \cup { Var("Wrap", "newtype", x) : x \in ShapesFew }
+           \cup { Var("Coords", "newtype", Seq_(<<I(a), I(b)>>)) : a \in {"3", "-9223372036854775808"}, b \in {"-4", "4294967296"} }
+           \cup { Var("Single", "newtype", Seq_(<<I(a)>>)) : a \in {"0", "-1"} }
+           \cup { Var("Maybe", "newtype", x) : x \in {NoneV} \cup {Some(y) : y \in ShapesFew} }
+           \cup { Var("Items", "newtype", Seq_(xs)) : xs \in {<<>>, <<I("1")>>, <<I("1"), I("2")>>, <<I("104"), I("105"), I("-1")>>} }
+           \cup { Var("Rec", "newtype", x) : x \in PlainFew }
+           \cup { Var("Table", "newtype", m) : m \in {Map_(<<>>), Map_(<< <<S(<<107>>), I("0")>> >>), Map_(<< <<S(<<97>>), I("1")>>, <<S(<<98>>), I("-9223372036854775808")>> >>)} }
+           \cup { Var("Pair", "tuple", Seq_(<<a, b>>)) : a \in ShapesFew, b \in ShapesFew }
+           \cup { Var("Named", "struct", St(<< <<"inner", a>>, <<"next", NoneV>> >>)) : a \in ShapesFew }
+Outers == Outers0 \cup { Var("Boxed", "newtype", x) : x \in Outers0 } \cup { Var("Boxed", "newtype", Var("Boxed", "newtype", x)) : x \in {y \in Outers0 : y.variant \in {"Leaf", "Coords", "Wrap"}} }
+          \cup { Var("Named", "struct", St(<< <<"inner", Var("Unit", "unit", UnitV)>>, <<"next", Some(x)>> >>)) : x \in {y \in Outers0 : y.variant \in {"Leaf", "Coords", "Wrap", "Pair", "Named"}} }
 ByType ==
-  [ I8 |-> {I(x) : x \in I8s}, I16 |-> {I(x) : x \in I16s}, I32 |-> {I(x) : x \in I32s}, I64 |-> {I(x) : x \in I64s},
+  [ Outer |-> Outers,
+    OptOuter |-> {NoneV} \cup {Some(x) : x \in {y \in Outers0 : y.variant \in {"Leaf", "Coords", "Wrap", "Maybe"}}},
+    VecOuter |-> {Seq_(<<a, b>>) : a \in {y \in Outers0 : y.variant \in {"Leaf", "Coords", "Wrap"}}, b \in {y \in Outers0 : y.variant \in {"Leaf", "Single", "Items"}}},
+    ResI64Str |-> {Var("Ok", "newtype", I(x)) : x \in SmallI64} \cup {Var("Err", "newtype", S(x)) : x \in SmallStr},
+    ResTupShape |-> {Var("Ok", "newtype", Seq_(<<I("1"), I("2")>>)), Var("Ok", "newtype", Seq_(<<I("-9223372036854775808"), I("0")>>))} \cup {Var("Err", "newtype", x) : x \in ShapesFew},
+    I8 |-> {I(x) : x \in I8s}, I16 |-> {I(x) : x \in I16s}, I32 |-> {I(x) : x \in I32s}, I64 |-> {I(x) : x \in I64s},
     U8 |-> {I(x) : x \in U8s}, U16 |-> {I(x) : x \in U16s}, U32 |-> {I(x) : x \in U32s}, U64 |-> {I(x) : x \in U64s},
     F32 |-> {F32(b) : b \in F32s}, F64 |-> {F64(b) : b \in F64s}, Bool |-> {B(TRUE), B(FALSE)}, Char |-> {C(c) : c \in Chars}, Str |-> {S(s) : s \in Strs},
     Unit |-> {UnitV},
